@@ -398,10 +398,38 @@ func ruleR20_2(w *World, r *Report) {
 		if strings.HasPrefix(fn.Name(), "New") {
 			continue
 		}
+		if flattenable[fn] {
+			continue // a new helper is read at its call sites
+		}
 		n := 0
 		var first ssa.Instruction
-		forEachInstr(fn, func(in ssa.Instruction) {
+		// the accesses of fn itself and, at the call that leads to them, those of the new helpers it calls
+		var touches func(g *ssa.Function, d int) bool
+		touches = func(g *ssa.Function, d int) bool {
+			hit := false
+			forEachOwnInstr(g, func(in ssa.Instruction) {
+				if fa, ok := in.(*ssa.FieldAddr); ok && fieldName(fa.X.Type(), fa.Field) == "DatatypeManager.dataMap" {
+					hit = true
+				}
+				if c, ok := in.(*ssa.Call); ok && d < 4 {
+					if h := c.Call.StaticCallee(); h != nil && flattenable[h] && touches(h, d+1) {
+						hit = true
+					}
+				}
+			})
+			return hit
+		}
+		forEachOwnInstr(fn, func(in ssa.Instruction) {
+			hit := false
 			if fa, ok := in.(*ssa.FieldAddr); ok && fieldName(fa.X.Type(), fa.Field) == "DatatypeManager.dataMap" {
+				hit = true
+			}
+			if c, ok := in.(*ssa.Call); ok {
+				if h := c.Call.StaticCallee(); h != nil && flattenable[h] && touches(h, 1) {
+					hit = true
+				}
+			}
+			if hit {
 				n++
 				if first == nil {
 					first = in
